@@ -68,7 +68,8 @@ def core(ctx):
 
 @st.composite
 def _case(draw, ctx):
-    parent = draw(S.circuit_spec(min_inputs=1, max_inputs=3, min_gates=1, max_gates=5, max_fanin=3, name="p"))
+    ppools = (S.BENIGN,) if draw(st.integers(0, 3)) else (S.BENIGN, ["\\m.x", "\\m_x", "\\core.n1", "\\core_n1", "\\a.b.c"])
+    parent = draw(S.circuit_spec(min_inputs=1, max_inputs=3, min_gates=1, max_gates=5, max_fanin=3, name="p", pools=ppools))
     nch = draw(st.integers(1, 2))
     children = []
     for ci in range(nch):
@@ -106,7 +107,12 @@ def _case(draw, ctx):
                 fresh_i += 1
                 fresh.append(fb)
                 conns[o] = fb
-        steps.append({"op": op, "child": ci, "name": name, "conns": conns, "fresh": fresh})
+        step = {"op": op, "child": ci, "name": name, "conns": conns, "fresh": fresh}
+        if op == "sub" and draw(st.integers(0, 5)) == 0:
+            # non-default strip_io=False: child io stays io, so child inputs cannot be attached
+            step["keep_io"] = True
+            step["conns"] = {k: v for k, v in conns.items() if k in outs}
+        steps.append(step)
         nets += fresh
         if op == "sub":
             nets += [f"{name}_{x[0]}" for x in ch["nodes"]]
@@ -143,7 +149,7 @@ def _first_diff(a, b):
 
 def check(case, ctx):
     P = specs.build(case["parent"])
-    if refsim.ref_lint(P):
+    if [b for b in refsim.ref_lint(P) if b[0] != "dotted_no_instance"]:
         raise specs.SpecError("parent not lint-clean")
     children = [specs.build(s) for s in case["children"]]
     for ch in children:
@@ -166,7 +172,13 @@ def check(case, ctx):
         before_nodes = set(before.graph.nodes)
         reg_before = dict(P.blackboxes)
         conns = dict(step.get("conns", {}))
-        if op == "sub":
+        keep_io = bool(step.get("keep_io"))
+        if op == "sub" and keep_io:
+            need(lib(P.add_subcircuit, ch, name, conns, strip_io=False), "add_subcircuit_keep_io", where)
+            p_inputs |= {f"{name}_{i}" for i in ch.inputs()}
+            p_outputs |= {f"{name}_{o}" for o in ch.outputs()}
+            labels.add("strip_io_false")
+        elif op == "sub":
             need(lib(P.add_subcircuit, ch, name, conns), "add_subcircuit", where)
         elif op == "bb":
             bb = cg.BlackBox(f"t_{name}", sorted(ch.inputs()), sorted(ch.outputs()))
@@ -193,7 +205,7 @@ def check(case, ctx):
                 nested = True
         if set(P.blackboxes) != set(exp_reg) or any(P.blackboxes[k] is not exp_reg[k] for k in exp_reg):
             raise Violation(f"{op}|registry", f"{where}: registry is {sorted(P.blackboxes)}, expected {sorted(exp_reg)}")
-        bad = refsim.ref_lint(P, undriven=False)
+        bad = [b for b in refsim.ref_lint(P, undriven=False) if b[0] != "dotted_no_instance"]
         if bad:
             raise Violation(f"{op}|lint", f"{where}: result violates wiring rules {bad[:3]}")
         g = P.graph
